@@ -6,7 +6,8 @@ Only the socket is faked.  Everything else is the real code:
   * client side: sdc11073.pysoap.soapclient.SoapClient._send_soap_request / get_from_url over a real
     http.client.HTTPConnection whose `sock` is a LoopSock (-> http.client.HTTPResponse, HTTPReader.read_response_body)
   * notification side: ActionBasedSubscriptionsManager / BICEPSSubscriptionsManagerBaseAsync._mk_subscription_instance,
-    SoapClientPool, SdcProvider._mk_soap_client, SoapClient / SoapClientAsync
+    SoapClientPool, SdcProvider._mk_soap_client, SoapClient / SoapClientAsync (the async client posts through a real
+    aiohttp session to an in-process TCP server that records the wire bytes: checks/c17.py AsyncWire)
 Every stream handed to the real readers counts its read calls; exceeding the budget raises Spin (a BaseException), so
 an endless loop in the code under test is observed as a result.
 """
@@ -290,38 +291,6 @@ def sync_get(client, path: str):
 
 
 # ------------------------------------------------------------------------------------------ notification side
-class _FakeAioResponse:
-    status = 200
-    reason = 'Ok'
-
-    async def text(self):
-        return ''
-
-
-class _FakePostCtx:
-    def __init__(self, session, path, data, headers):
-        session.posted.append((path, data, dict(headers)))
-
-    async def __aenter__(self):
-        return _FakeAioResponse()
-
-    async def __aexit__(self, *a):
-        return False
-
-
-class FakeAioSession:
-    """Stands in for aiohttp.ClientSession: records what SoapClientAsync posts."""
-
-    def __init__(self):
-        self.posted = []
-
-    def post(self, path, data=None, headers=None):
-        return _FakePostCtx(self, path, data, headers or {})
-
-    async def close(self):
-        pass
-
-
 _LOOP = None
 
 
@@ -384,19 +353,6 @@ def notification_client(accept_encoding: str | None, enabled: list[str], chunk_s
                                 subscription_cls=ActionBasedSubscriptionsManager.subscription_cls)
     subscription = mgr_cls._mk_subscription_instance(mgr, request_data)  # noqa: SLF001
     return subscription._get_soap_client()  # noqa: SLF001
-
-
-def async_post(client, path: str, body: bytes):
-    """SoapClientAsync.async_post_message_to over a fake aiohttp session -> (res, (path, data, headers) | exc)."""
-    session = FakeAioSession()
-    client._http_connection = session  # noqa: SLF001
-    msg = types.SimpleNamespace(p_msg=None, serialize=lambda request_manipulator=None: body)  # noqa: ARG005
-
-    def run():
-        run_coro(client.async_post_message_to(path, msg))
-        return session.posted[0]
-
-    return guarded(run)
 
 
 # ------------------------------------------------------------------------------------------ python mirrors
